@@ -228,9 +228,11 @@ let parse_obs (iline : string) (jline : string) (prev : string option) =
         None (split_sp jline) in
     let evs = if f.(1) = "-" then [] else List.filter_map (fun e ->
         match String.split_on_char ':' e with
-        | "out" :: id :: "1" :: _ -> Some (EOut (nn id, true, true))
-        | ["out"; id; "0"; "="] -> Some (EOut (nn id, false, true))
-        | "out" :: id :: "0" :: _ -> Some (EOut (nn id, false, false))
+        | ["out"; id; "1"; c; m; toks] ->
+          Some (EOut (nn id, true, true, (try Some { m_class = class_of_int (int_of_string c); m_method = nn m; m_id = nn id; m_attrs = parse_attrs toks } with _ -> None)))
+        | "out" :: id :: "1" :: _ -> Some (EOut (nn id, true, true, None))
+        | ["out"; id; "0"; "="] -> Some (EOut (nn id, false, true, None))
+        | "out" :: id :: "0" :: _ -> Some (EOut (nn id, false, false, None))
         | ["tmo"; left] -> Some (ETmo ((match tmoid with Some i -> i | None -> nn "99999"), nn left))
         | ["retry"; id] -> Some (ERetry' (nn id))
         | ["fail"; id; r] -> Some (EFail (nn id, (match r with "timeout" -> TimedOut | "violated" -> ProtectionViolated | _ -> DoNotRetry)))
@@ -251,7 +253,7 @@ let agent_suite () =
   let cl = ref None in
   let pending = ref None in
   let mcf = ref None in
-  let ms = ref mstate0 in
+  let ms = ref None in
   let prev = ref None in
   let last_i = ref None in
   (try
@@ -266,18 +268,20 @@ let agent_suite () =
             | "0" -> MNone | "1" -> MST None | "2" -> MST (Some IMI) | "3" -> MST (Some ISHA)
             | _ -> MLT { lt_st = First; lt_pr = None } in
           cl := Some (init cf m);
-          mcf := Some { mc_reliable = rel = "1"; mc_rm = nn rm; mc_rc = nn rc; mc_limit = nn limit };
-          ms := mstate0;
+          let cc = { cc_mech = nn mech; cc_fp = fp = "1"; cc_reliable = rel = "1" } in
+          mcf := Some ({ mc_reliable = rel = "1"; mc_rm = nn rm; mc_rc = nn rc; mc_limit = nn limit }, cc);
+          ms := Some (mall0 cc);
           (* the snapshot of a fresh client *)
           prev := Some ("T=-;H=-;" ^ (match mech with "0" -> "M=none" | "1" -> "M=st:0" | "2" -> "M=st:1" | "3" -> "M=st:2" | _ -> "M=lt:0:-"))
         | _ -> failwith ("bad H: " ^ line)
       end else if n > 2 && line.[0] = 'O' then begin
         let f = Array.of_list (split_sp line) in
         let op, mo = match f.(1) with
-          | "S" -> Send (nn f.(2), nn f.(3), nn f.(4), nn f.(5), parse_attrs f.(7), f.(6) = "1"), MSend (nn f.(2), nn f.(3), nn f.(4))
-          | "N" -> Indication (nn f.(2), nn f.(3), parse_attrs f.(5), f.(4) = "1"), MInd
-          | "R" -> Recv (nn f.(2), f.(3) = "1",
-                         { m_class = class_of_int (int_of_string f.(4)); m_method = nn f.(5); m_id = nn f.(6); m_attrs = parse_attrs f.(7) }), MRecv (nn f.(2))
+          | "S" -> Send (nn f.(2), nn f.(3), nn f.(4), nn f.(5), parse_attrs f.(7), f.(6) = "1"), MSend (nn f.(2), nn f.(3), nn f.(4), nn f.(5), parse_attrs f.(7))
+          | "N" -> Indication (nn f.(2), nn f.(3), parse_attrs f.(5), f.(4) = "1"), MInd (nn f.(3), parse_attrs f.(5))
+          | "R" ->
+            let m = { m_class = class_of_int (int_of_string f.(4)); m_method = nn f.(5); m_id = nn f.(6); m_attrs = parse_attrs f.(7) } in
+            Recv (nn f.(2), f.(3) = "1", m), MRecv (nn f.(2), f.(3) = "1", m)
           | "T" -> Tmo (nn f.(2)), MTmo (nn f.(2))
           | _ -> failwith ("bad O: " ^ line) in
         pending := Some (op, mo)
@@ -291,14 +295,17 @@ let agent_suite () =
           last_i := Some (i, String.sub line 2 (n - 2))
         | _ -> failwith "I without H/O"
       end else if n >= 1 && line.[0] = 'J' then begin
-        match !last_i, !pending, !mcf with
-        | Some (i, il), Some (_, mo), Some c ->
+        match !last_i, !pending, !mcf, !ms with
+        | Some (i, il), Some (_, mo), Some (c, cc), Some st ->
           (match parse_obs il (if n > 2 then String.sub line 2 (n - 2) else "") !prev with
            | None -> List.iter (fun k -> emit (Printf.sprintf "S %d 0 C%02d unparsable" i k)) [3]
            | Some (o, key) ->
-             let (s', vs) = monitor_step c !ms mo o in
-             ms := s'; prev := Some key;
-             List.iter (fun (k, v) -> emit (Printf.sprintf "S %d %d C%02d -" i (if v then 1 else 0) (int_of_n k))) vs);
+             let (s', vs) = monitor_step c cc st mo o in
+             ms := Some s'; prev := Some key;
+             List.iter (fun ((k, v), cls) ->
+                 let tag = match int_of_n k, int_of_n cls with
+                   | 8, 1 -> "lt-retry401-no-integrity" | 8, 2 -> "lt-retry438-no-algorithms" | _ -> "-" in
+                 emit (Printf.sprintf "S %d %d C%02d %s" i (if v then 1 else 0) (int_of_n k) tag)) vs);
           pending := None; last_i := None
         | _ -> ()
       end
